@@ -78,11 +78,20 @@ def pda_to_accept_on_empty_stack_in_place(P: PDA) -> None:
     delta[q_initial, epsilon, epsilon].add((q0, stack_bottom))
     P.q0 = q_initial
 
+    # define a state in which the symbols that are left on the stack are popped
+    q_drain = fresh_state(Q, 'q_drain')
+    Q.add(q_drain)
+
     # define a new accepting state
     q_accept = fresh_state(Q, 'q_accept')
     Q.add(q_accept)
     for q in F:
         delta[q, epsilon, stack_bottom].add((q_accept, epsilon))
+        for X in Gamma - {stack_bottom}:
+            delta[q, epsilon, X].add((q_drain, epsilon))
+    for X in Gamma - {stack_bottom}:
+        delta[q_drain, epsilon, X].add((q_drain, epsilon))
+    delta[q_drain, epsilon, stack_bottom].add((q_accept, epsilon))
     F.clear()
     F.add(q_accept)
 
